@@ -5,7 +5,7 @@ use crate::utils::time::curr_time_millis;
 use crate::Error;
 use std::collections::HashMap;
 use std::sync::Arc;
-use std::sync::RwLock;
+use crate::vsync::RwLock;
 pub type ContextPtr = Arc<RwLock<EntryContext>>;
 
 #[derive(Default)]
